@@ -16,15 +16,9 @@ fn write_lines(path: &std::path::Path, lines: &[String]) {
     }
 }
 
-/// Run the cases; if the harness's own reference code panics (the implementation behaved in a way the
-/// shadow cannot follow — that is itself a failure of the property, not of the run), fall back to
-/// evaluating block by block (a single line, or one `B … E` history) so that exactly the offending
-/// block is reported as an oracle failure and everything else is still evaluated.
-fn run_resilient(prop: &str, cases: &[String]) -> util::RunOut {
-    if let Some(out) = util::guarded(|| props::run(prop, cases)) {
-        return out;
-    }
-    let mut total = util::RunOut::default();
+/// Split the case lines into replayable blocks: a single stateless line, or one `B … E` history.
+fn split_blocks(cases: &[String]) -> Vec<(usize, usize)> {
+    let mut v = Vec::new();
     let mut i = 0;
     while i < cases.len() {
         let mut j = i + 1;
@@ -36,23 +30,58 @@ fn run_resilient(prop: &str, cases: &[String]) -> util::RunOut {
                 }
             }
         }
-        let block = &cases[i..j];
-        match util::guarded(|| props::run(prop, block)) {
-            Some(out) if out.impl_lines.len() == block.len() && out.oracle_lines.len() == block.len() => {
+        v.push((i, j));
+        i = j;
+    }
+    v
+}
+
+/// Run the cases block by block in a worker thread, with a watchdog.
+///  * If the harness's own reference code panics on a block (the implementation behaved in a way the
+///    shadow cannot follow — itself a failure of the property, not of the run), exactly that block is
+///    reported as an oracle failure and everything else is still evaluated.
+///  * If a block does not finish within `VERIF_CASE_TIMEOUT` seconds (default 120) the implementation
+///    does not terminate on it (the reference code has no unbounded loops): the block is reported as an
+///    oracle failure, the remaining blocks are marked `skipped-after-hang` (the check does not compare
+///    them), and the process exits with the hung thread abandoned.
+fn run_resilient(prop: &str, cases: &[String]) -> util::RunOut {
+    let blocks = split_blocks(cases);
+    let limit = std::time::Duration::from_secs(
+        std::env::var("VERIF_CASE_TIMEOUT").ok().and_then(|s| s.parse().ok()).unwrap_or(120),
+    );
+    let (tx, rx) = std::sync::mpsc::channel::<(usize, Option<util::RunOut>)>();
+    let shared: std::sync::Arc<Vec<String>> = std::sync::Arc::new(cases.to_vec());
+    let (prop_s, blocks_w, cases_w) = (prop.to_string(), blocks.clone(), shared.clone());
+    std::thread::Builder::new()
+        .stack_size(512 << 20)
+        .spawn(move || {
+            for (k, (i, j)) in blocks_w.iter().enumerate() {
+                let r = util::guarded(|| props::run(&prop_s, &cases_w[*i..*j]));
+                if tx.send((k, r)).is_err() {
+                    return;
+                }
+            }
+        })
+        .expect("spawn worker");
+    let mut total = util::RunOut::default();
+    for (k, (i, j)) in blocks.iter().enumerate() {
+        let n = j - i;
+        match rx.recv_timeout(limit) {
+            Ok((kk, Some(out))) if kk == k && out.impl_lines.len() == n && out.oracle_lines.len() == n => {
                 total.impl_lines.extend(out.impl_lines);
                 total.oracle_lines.extend(out.oracle_lines);
                 total.stats.evaluations += out.stats.evaluations;
                 total.stats.oracle_fail += out.stats.oracle_fail;
                 total.stats.nontrivial.extend(out.stats.nontrivial);
-                for (k, v) in out.stats.hist {
-                    *total.stats.hist.entry(k).or_insert(0) += v;
+                for (key, v) in out.stats.hist {
+                    *total.stats.hist.entry(key).or_insert(0) += v;
                 }
                 for smp in out.stats.samples {
                     total.stats.sample(&smp);
                 }
             }
-            _ => {
-                for _ in block {
+            Ok(_) => {
+                for _ in 0..n {
                     total.push(
                         "harness-panic".to_string(),
                         Err("the reference (shadow) evaluation of this case panicked: the implementation behaved in a way the reference cannot follow".to_string()),
@@ -60,8 +89,20 @@ fn run_resilient(prop: &str, cases: &[String]) -> util::RunOut {
                 }
                 total.stats.bump("harness-panic");
             }
+            Err(_) => {
+                for _ in 0..n {
+                    total.push("hang".to_string(), Err(format!("the implementation did not terminate on this case within {} s", limit.as_secs())));
+                }
+                total.stats.bump("hang");
+                for (i2, j2) in &blocks[k + 1..] {
+                    for _ in *i2..*j2 {
+                        total.impl_lines.push("skipped-after-hang".to_string());
+                        total.oracle_lines.push("PASS".to_string());
+                    }
+                }
+                break;
+            }
         }
-        i = j;
     }
     total
 }
@@ -109,6 +150,9 @@ fn main() {
     };
     let dir = std::path::Path::new(&outdir);
     std::fs::create_dir_all(dir).unwrap();
+    // written first: if the implementation brings the whole process down (stack overflow, abort) the
+    // orchestrator still has the cases and bisects them
+    write_lines(&dir.join("cases.txt"), &cases);
     let out = run_resilient(prop, &cases);
     assert_eq!(out.impl_lines.len(), cases.len(), "one impl line per case line");
     assert_eq!(out.oracle_lines.len(), cases.len(), "one oracle line per case line");
@@ -116,4 +160,6 @@ fn main() {
     write_lines(&dir.join("impl.txt"), &out.impl_lines);
     write_lines(&dir.join("oracle.txt"), &out.oracle_lines);
     std::fs::write(dir.join("stats.json"), out.stats.to_json()).unwrap();
+    // leave explicitly: a hung worker thread must not keep the process alive
+    std::process::exit(0);
 }
